@@ -314,6 +314,17 @@ def c01_roundtrip(seed, tier):
         special.append((huge, ["--fixed-size", "3MiB"], "F:3145728", "none", None))
         special.append((bytes([0x55]) * ((5 << 20) + 3), ["--hash-chunking", "RollSum", "--avg-chunk-size", "4MiB", "--min-chunk-size", "16KiB",
                         "--max-chunk-size", "6MiB", "--rolling-window-size", "64"], "R:21:16384:6291456:64", "brotli", 1))
+        # two different 16-byte blocks whose Blake2b-512 hashes share their first 4 bytes, archived with
+        # --hash-length 4 (KNOWN FINDING: the writers tell chunks apart by the full hash, the reader by the
+        # truncated one - the clone reports success and repeats the first block)
+        coll_src = b"C17-block-010282" + b"C17-block-095313"
+        cls_c, arch_c, se_c, apath_c = compress_cli(W, coll_src, ["--fixed-size", "16"], 4, "none", None, 2)
+        if cls_c == "ok":
+            outp = W.fresh(".out")
+            c2, rc, so, se2 = clone_cli(W, apath_c, outp)
+            R.stat("truncated_hash_collision_cases")
+            if c2 == "ok" and read_file(outp) != coll_src:
+                R.fail("roundtrip-output-differs-from-source", "cli-compress truncated-hash-collision F:16 hl=4 src=%s" % digest(coll_src))
         for src, cfg_args, cfg_tok, compression, level in special:
             for writer in (("cli",) if len(src) > (1 << 20) else ("cli", "lib")):
                 desc = "%s-compress special %s %s/%s src=%s" % (writer, cfg_tok, compression, level, digest(src))
@@ -684,7 +695,7 @@ def c14_refusals(seed, tier):
             cut_path = W.write(arch[:hs_ - rng.choice([1, 32, 64])], ".cut.cba")     # the file ends inside the header checksum
             for out_state in ("absent", "regular-short", "regular-long", "blockdev-big", "blockdev-small"):
                 for flags in ("none", "force", "seed-output"):
-                    for akind in ("valid", "corrupt-header", "not-an-archive", "cut-in-checksum", "pin-mismatch", "pin-prefix", "pin-permuted", "pin-ok"):
+                    for akind in ("valid", "corrupt-header", "not-an-archive", "cut-in-checksum", "pin-mismatch", "pin-prefix", "pin-permuted", "pin-overlong", "pin-ok"):
                         outp = W.fresh(".out")
                         prior = None
                         if out_state == "regular-short":
@@ -710,13 +721,15 @@ def c14_refusals(seed, tier):
                             pin = rng.choice([hc[::-1], hc[1:] + hc[:1], hc[:10][::-1] + hc[10:]]).hex()
                             if pin == hc.hex():
                                 pin = (hc[1:] + hc[:1]).hex()
+                        elif akind == "pin-overlong":
+                            pin = hc.hex() + rng.choice(["00", "ff" * 3, hc.hex()])
                         elif akind == "pin-ok":
                             pin = hc.hex()
                         cls, rc, so, se = clone_cli(W, ap, outp, seed_output=(flags == "seed-output"), force=(flags == "force"),
                                                     pin=pin, blockdev=blockdev)
                         after = read_file(outp)
                         # the property's expectation
-                        archive_refusal = akind in ("corrupt-header", "not-an-archive", "cut-in-checksum", "pin-mismatch", "pin-prefix", "pin-permuted")
+                        archive_refusal = akind in ("corrupt-header", "not-an-archive", "cut-in-checksum", "pin-mismatch", "pin-prefix", "pin-permuted", "pin-overlong")
                         exists_refusal = prior is not None and flags == "none"
                         small_dev = out_state == "blockdev-small"
                         refused = archive_refusal or exists_refusal or small_dev
@@ -947,6 +960,21 @@ def c16_files(seed, tier):
                       ("empty-file-input", "out.cba"), ("empty-stdin", names[(i + 1) % len(names)]),
                       ("file-input", names[(2 * i + 1) % len(names)]), ("force", names[(2 * i + 2) % len(names)]),
                       ("empty-file-input", names[(2 * i + 3) % len(names)])]
+            if i == 0:
+                # KNOWN FINDING: the temp file is opened by name with create+truncate - something already at that
+                # path is reused (here: a dangling symbolic link, whose target then stays behind as a second new file)
+                sub = os.path.join(W.dir, "ctmp_%d" % i)
+                os.makedirs(sub)
+                target = os.path.join(sub, "elsewhere.bin")
+                os.symlink(target, os.path.join(sub, "out..tmp"))
+                before = set(os.listdir(sub))
+                cls, rc, so, se = run_bita(["compress", "-i", W.write(src or b"x" * 200, ".src"), "--compression", "none"] + SMALL_CFGS[0][0] +
+                                           [os.path.join(sub, "out.cba")])
+                after = set(os.listdir(sub))
+                R.stat("compress_temp_path_preexisting")
+                if cls == "ok" and (after - before) != {"out.cba"}:
+                    R.fail("compress-did-not-leave-exactly-the-archive",
+                           "cli-compress-files temp-path-is-a-dangling-symlink :: new entries %r" % sorted(after - before))
             for j, (mode, oname) in enumerate(cmodes):
                 sub = os.path.join(W.dir, "c%d_%d_%s" % (i, j, mode))
                 os.makedirs(os.path.join(sub, os.path.dirname(oname)))
@@ -1208,8 +1236,11 @@ def c02_seeds(seed, tier):
             if use_http:
                 srv = httpd.Server(arch)
                 archive_arg = srv.url()
+            verify = rng.random() < 0.3
             cls, rc, so, se = clone_cli(W, archive_arg, outp, seeds=seed_paths, seed_output=in_place, stdin_seed=stdin_seed,
-                                        blockdev=blockdev, strace_log=None if use_http else log)
+                                        blockdev=blockdev, verify_output=verify, strace_log=None if use_http else log)
+            if verify:
+                R.stat("with_verify_output_on_%s" % ("a_block_device" if blockdev else "a_file"))
             got = read_file(outp)
             req = "cli-clone seeds=%r stdin=%s in_place=%s blockdev=%s http=%s cfg=%s hl=%d src=%s" % (
                 kinds, stdin_seed is not None, in_place, blockdev, use_http, cfg_tok, hl, digest(src))
@@ -1221,7 +1252,7 @@ def c02_seeds(seed, tier):
                 R.fail("seeds-changed-the-output", req)
             # model: same scenario (stdin seed comes first, as in clone_archive)
             all_seeds = ([stdin_seed] if stdin_seed is not None else []) + seeds
-            flags = ("s" if in_place else "") + ("b" if blockdev else "") or "-"
+            flags = ("s" if in_place else "") + ("b" if blockdev else "") + ("v" if verify else "") or "-"
             mreq = "clone-rf %s - %s %s %s -" % (flags, hx(arch), hx(prior or b""), ",".join(hx(s) if s else "h" for s in all_seeds) or "-")
             # what was fetched: local = reads on the archive beyond the header; http = Range log
             a = pyfmt.parse_archive(arch)
@@ -1603,9 +1634,8 @@ def c04_corruption(seed, tier):
             same_delta[3] ^= 0x40
             same_delta[40] ^= 0x40
             for pin in ("", hc[:2], hc[:16], hc[:126], "%02x" % (int(hc[:2], 16) ^ 1) + hc[2:],
-                        bytes(swapped).hex(), hb[::-1].hex(), (hb[1:] + hb[:1]).hex(), bytes(same_delta).hex(), "00" * 64):
-                # (an over-long value whose first 64 bytes are the checksum is truncated to 64 bytes by the option
-                #  parser - HashSum::MAX_LEN - and accepted; that is the parser's reading of the value, not a prefix match)
+                        bytes(swapped).hex(), hb[::-1].hex(), (hb[1:] + hb[:1]).hex(), bytes(same_delta).hex(), "00" * 64,
+                        hc + "00", hc + hc, hc + "ab" * 7):      # the checksum followed by anything is not the checksum
                 outp = W.fresh(".out")
                 cls, rc, so, se = clone_cli(W, apath, outp, pin=pin)
                 R.stat("pin_rows")
@@ -1764,6 +1794,32 @@ def c11_conformance(seed, tier):
             md = {}
             for j in range(rng.randrange(0, 4)):
                 md[rng.choice(["", "a", "key%d" % j, "ключ", "k k"])] = rng.choice(["", "v", "binÿ", "x" * 300])
+            if i == 0:
+                # KNOWN FINDING: sizes of 4 GiB and more are recorded modulo 2^32
+                cls_g, arch_g, se_g, ap_g = compress_cli(W, src or b"y" * 100, ["--hash-chunking", "RollSum", "--avg-chunk-size", "64KiB",
+                                                        "--min-chunk-size", "16KiB", "--max-chunk-size", "4097MiB", "--rolling-window-size", "64"], 64, "none")
+                R.stat("chunk_size_beyond_32_bits_cases")
+                if cls_g == "ok" and arch_g:
+                    rec = pyfmt.parse_archive(arch_g)["dictionary"]["chunker_params"]["max_chunk_size"]
+                    if rec != 4097 << 20:
+                        R.fail("archive-does-not-conform", "cli-compress chunk-size-beyond-32-bits --max-chunk-size 4097MiB :: recorded %d" % rec)
+                # the library writer under a file size limit (its temp file cannot take the last chunk): an error, or
+                # a conforming archive - never Ok with an archive shorter than its header says
+                import resource, signal
+                lsrc = rng.randbytes(4 * 1024)
+                inp = W.write(lsrc, ".src"); outl = W.fresh(".lim.cba")
+
+                def limit():
+                    signal.signal(signal.SIGXFSZ, signal.SIG_IGN)
+                    resource.setrlimit(resource.RLIMIT_FSIZE, (3500, 3500))
+                pl = subprocess.run([os.path.join(core.TARGET, "debug", "l1"), "lib-compress", inp, outl, "F:1024", "64", "none", "6", "2", "-", "0"],
+                                    stdout=subprocess.PIPE, stderr=subprocess.PIPE, env=core.env_offline(), preexec_fn=limit, timeout=120)
+                R.stat("library_writer_under_file_size_limit")
+                la = read_file(outl)
+                if pl.returncode == 0 and la is not None:
+                    probs_l = pyfmt.conformance_problems(la, lsrc, "F:1024", 64, 0, 0, {}, version)
+                    if probs_l:
+                        R.fail("archive-does-not-conform", "lib-compress under RLIMIT_FSIZE=3500 returned Ok :: " + "; ".join(probs_l)[:200])
             writer = "cli" if i % 3 else "lib"
             if i % 4 == 1:
                 # duplicates at the tail: the last chunks repeat earlier ones (fixed blocks; a zero-filled tail)
@@ -1842,10 +1898,14 @@ def c15_cli(seed, tier):
             arch, d = pyfmt.encode_archive(base_src, sizes, (1, 5, 16, 512, 16), 8, rng, freedoms=False)
             # structure-aware mutation under a recomputed checksum
             p = d["chunker_params"]
-            mut = rng.randrange(23)
+            mut = rng.randrange(25)
             name = "none"
             if i in (5, 6, 7):
                 mut = 22
+            elif i in (8, 9):
+                mut = 23
+            elif i in (10, 11):
+                mut = 24
             if mut == 0:
                 d["rebuild_order"] = d["rebuild_order"] + [len(d["chunk_descriptors"]) + rng.choice([0, 1, 1000, 2 ** 32 - 1])]; name = "rebuild-index-out-of-range"
             elif mut == 1:
@@ -1903,6 +1963,17 @@ def c15_cli(seed, tier):
                 d["chunk_descriptors"][j]["archive_offset"] = 2 ** 64 - hl_ - rng.choice([1, 2, 3])
                 d["chunk_descriptors"][j]["archive_size"] = max(4, d["chunk_descriptors"][j]["archive_size"])
                 name = "offset-plus-size-overflow"
+            if mut == 23 and d["chunk_descriptors"]:
+                # a chunk declared larger / smaller than it is (the total adjusted so that the dictionary adds up):
+                # the layout would overlap or leave a gap - the clone must end in an error
+                j = rng.randrange(len(d["chunk_descriptors"]))
+                delta = rng.choice([-1, 1, 7, -d["chunk_descriptors"][j]["source_size"] + 1]) if d["chunk_descriptors"][j]["source_size"] > 1 else 3
+                d["chunk_descriptors"][j]["source_size"] += delta
+                d["source_total_size"] = sum(d["chunk_descriptors"][k]["source_size"] for k in d["rebuild_order"])
+                name = "chunk-size-lie"
+            elif mut == 24:
+                d["source_total_size"] = max(0, d["source_total_size"] + rng.choice([-1, 1, 1000, -d["source_total_size"]]))
+                name = "total-size-lie"
             dbytes = pyfmt.encode_dictionary(d)
             declared = None
             if mut == 21:
@@ -1915,8 +1986,6 @@ def c15_cli(seed, tier):
                 outp = W.fresh(".out")
                 if cmd.startswith("clone-http"):
                     # the same crafted bytes behind the HTTP reader (range arithmetic, adjacent runs)
-                    if declared is not None and declared >= 2 ** 20:
-                        continue
                     srv = httpd.Server(data)
                     cls, rc, so, se = clone_cli(W, srv.url(), outp, seeds=[seedfile] if cmd.endswith("seed") else [], timeout=30)
                     srv.close()
@@ -1934,6 +2003,8 @@ def c15_cli(seed, tier):
                 R.stat("runs")
                 if cls not in ("ok", "err"):
                     R.fail("crafted-archive-%s" % cls, "bita %s on crafted archive %s :: %s" % (cmd, name, se.decode(errors="replace")[-160:].replace("\n", "|")))
+                if name in ("chunk-size-lie", "total-size-lie") and cmd != "info" and cls == "ok":
+                    R.fail("inconsistent-dictionary-cloned-with-success", "bita %s on crafted archive %s" % (cmd, name))
                 if os.path.exists(outp):
                     os.unlink(outp)
             R.stat("mutation_" + name.split("-%d" % 0)[0][:40])
